@@ -26,7 +26,7 @@ KNOWN = os.path.join(VERIF, 'KNOWN_FINDINGS.txt')
 NCPU = os.cpu_count() or 4
 
 SAN_ENV = {
-    'ASAN_OPTIONS': 'exitcode=86:abort_on_error=0:detect_leaks=1:allocator_may_return_null=1:detect_stack_use_after_return=0:handle_segv=1:handle_abort=1:symbolize=1:max_malloc_fill_size=0',
+    'ASAN_OPTIONS': 'exitcode=86:abort_on_error=0:detect_leaks=0:allocator_may_return_null=1:detect_stack_use_after_return=0:handle_segv=1:handle_abort=1:symbolize=1:max_malloc_fill_size=0',
     'UBSAN_OPTIONS': 'halt_on_error=1:exitcode=87:print_stacktrace=1',
     'TSAN_OPTIONS': 'halt_on_error=1:exitcode=88:second_deadlock_stack=1',
     'MSAN_OPTIONS': 'exitcode=89',
@@ -97,7 +97,12 @@ def build_harness(name, vinfo, rc=True, interpose=False, extra='', libs='-lcrypt
         cmd = [cxx] + flags.split() + extra.split()
         if not rc:
             cmd.append('-DVF_NO_RC')
-        cmd += ['-I' + vinfo['include'], '-I' + HARNESS, '-I' + os.path.join(vinfo['repo'], 'lib')]
+        gen = os.path.join(vbuild.BUILD, 'gen')
+        if not os.path.exists(os.path.join(gen, 'pi_blowfish.inc')):
+            os.makedirs(gen, exist_ok=True)
+            subprocess.check_call([sys.executable, os.path.join(VERIF, 'bin', 'gen_pi.py'), os.path.join(gen, 'pi_blowfish.inc.tmp')])
+            os.rename(os.path.join(gen, 'pi_blowfish.inc.tmp'), os.path.join(gen, 'pi_blowfish.inc'))
+        cmd += ['-I' + vinfo['include'], '-I' + HARNESS, '-I' + gen, '-I' + os.path.join(vinfo['repo'], 'lib')]
         for s in (srcs or [name + '.cpp']):
             cmd.append(os.path.join(HARNESS, s))
         if vinfo.get('lib', '').endswith('.a'):
